@@ -181,13 +181,11 @@ def handle (op : String) (args : List String) (impl : String) : Option Verdict :
     let m := showBtc (btcBlock 1 block feeAddr rs txs)
     -- property: one result whatever the map iteration order, and every credited resource is one the transaction pays
     let multi := txs.any fun tx => (rs.filter fun r => (decode feeAddr tx r).isSome).length > 1
-    -- … and every message id is the function `source-destination-block` of the chain data
-    let idsOk := (items impl ";").all fun g => match g.splitOn "=" with
-      | [d, ms] => (match d.toNat? with
-        | some d => (ms.splitOn ",").all fun x => (x.splitOn ".").getLast? == some (btcMsgId 1 d block)
-        | none => false)
-      | _ => false
-    let ok := !(impl.contains '|') && impl != "err" && idsOk
+    -- … and it is the result of the rule itself: per transaction the FIRST resource in resource-id order that the
+    -- transaction is a deposit to (`credit feeAddr (sortRes rs)`), its amount, the id `source-destination-block`;
+    -- `m` is exactly that (`btcBlock` is defined through `credit (sortRes rs)`), so a wrong resource, a wrong amount, a
+    -- dropped or an invented transaction all fail here
+    let ok := !(impl.contains '|') && impl != "err" && impl == m
     return ⟨m, ok, s!"btccredit:txs={min txs.length 3}:res={min rs.length 3}:multi={multi}:any={m != "-"}"⟩
   | "btcnonce", [_, _] => some ⟨"same", impl == "same", "btcnonce"⟩
   | "evmids", [src, s, e, ds] => some <| Id.run do
